@@ -1,4 +1,5 @@
-CONSTANTS Hosts <- H3  Weights <- WPos  StratSet <- SRR  WtSet <- OnlyTrue  RefreshLists <- Lists2  Codes <- C3
+CONSTANTS Hosts <- H3  Weights <- W12  StratSet <- SRR  WtSet <- OnlyTrue  RefreshLists <- Lists1x  Codes <- C1
+CONSTANT CycleOf <- MCCycleOf
 SPECIFICATION Spec
 INVARIANTS TypeOK SelectsMember ErrorIffNoneEligible NoneEligibleMeans Rotation WeightedCycle CycleCoversAll
 CHECK_DEADLOCK FALSE
